@@ -181,6 +181,31 @@ def run(run, binfo):
                                    'expected': 'rejected at load, or deny for all credentials', 'observed': g})
                 else:
                     run.nontrivial.add(repr(v))
+    # values are parsed one by one: a string that merely LOOKS like an earlier value of the same document (its str() or
+    # JSON form) is a string, and not a sentence of the language
+    from oslo_policy import policy as _pol
+    for v in [[], ['@'], [['@']], ['role:admin'], [['role:admin']], [[]], ['role:admin', '@'], [['role:admin'], ['@']]]:
+        for text in (str(v), json.dumps(v), repr(v).replace("'", '"')):
+            for how in ('from_dict', 'json', 'yaml'):
+                doc = {'a_first': v, 'the_rule': text, 'default': '@'}
+                run.evaluations += 1
+                try:
+                    if how == 'from_dict':
+                        rules = _pol.Rules.from_dict(doc, 'default')
+                    elif how == 'json':
+                        rules = _pol.Rules.load(json.dumps(doc), 'default')
+                    else:
+                        import yaml as _yaml
+                        rules = _pol.Rules.load(_yaml.safe_dump(doc), 'default')
+                    e = enforcer()
+                    e.set_rules(rules, use_conf=False)
+                    g = [bool(e.enforce('the_rule', dict(TARGET), dict(c))) for c in CREDS]
+                except Exception as ex:   # noqa
+                    g = 'EXC ' + type(ex).__name__
+                if g != [False] * len(CREDS):
+                    run.violation('nonsentence-grants', 'in the document %r the string %r does not deny: %r' % (doc, text, g),
+                                  {'kind': 'failing-input', 'suite': 'spec-c02', 'input': {'document': doc, 'how': how},
+                                   'expected': 'deny for all credentials', 'observed': g})
     # values only Python callers or YAML's own tags can produce (byte strings, sets, complex numbers): not rules either
     import yaml
     exotic = [b'', bytearray(b''), b'x', b'@', ['@', b''], [['role:admin'], b''], [[b'']], set(), frozenset(['@']), {'@'},
